@@ -95,3 +95,88 @@ Definition picture_of_std (h : std_header) : picture :=
             (if t_pb h then PbFrame else if t_inter h then PFrame else IFrame)
             None None None None None (t_quant h) (t_cpm h)
             (if t_pb h then Some (t_trb h) else None) (if t_pb h then Some (5 + t_dbquant h) else None) (t_extra h).
+
+(* ---------------- H.263 with PLUSPTYPE, UFEP = 001 (OPPTYPE present) ---------------- *)
+Record plus_header := mkPlus {
+  p_tr : Z; p_split : bool; p_doccam : bool; p_freeze : bool;
+  p_fmt : Z;                                  (* OPPTYPE source format 0..7; 6 = custom *)
+  p_pcf : bool; p_umv : bool; p_sac : bool; p_ap : bool; p_aic : bool; p_df : bool; p_ss : bool;
+  p_rps : bool; p_isd : bool; p_aiv : bool; p_mq : bool;
+  p_type : Z;                                 (* MPPTYPE picture type 0..7 *)
+  p_rru : bool; p_rtype : bool;               (* RPR must be 0: RPRP is not implemented *)
+  p_cpm : option Z;
+  p_par : Z; p_pwi : Z; p_phi : Z; p_eparw : Z; p_eparh : Z;
+  p_cpcfc : Z; p_etr : Z;
+  p_uui_extended : bool;                      (* UUI '1' (true) or '01' (false) *)
+  p_sss : Z; p_elnum : Z; p_rlnum : Z; p_rpsmf : Z; p_trp : option Z;
+  p_quant : Z; p_trb : Z; p_dbquant : Z; p_extra : list Z }.
+
+Definition enc_plus (scal : bool) (h : plus_header) : list bool :=
+  start_code ++ bits_of 5 0 ++ bits_of 8 (p_tr h)
+  ++ [true; false; p_split h; p_doccam h; p_freeze h] ++ bits_of 3 7
+  ++ bits_of 3 1                                                                   (* UFEP = 001 *)
+  ++ (bits_of 3 (p_fmt h) ++ [p_pcf h; p_umv h; p_sac h; p_ap h; p_aic h; p_df h; p_ss h; p_rps h; p_isd h; p_aiv h; p_mq h;
+                               true; false; false; false])                          (* OPPTYPE *)
+  ++ (bits_of 3 (p_type h) ++ [false; p_rru h; p_rtype h; false; false; true])     (* MPPTYPE *)
+  ++ (match p_cpm h with None => [false] | Some p => true :: bits_of 2 p end)
+  ++ (if p_fmt h =? 6 then
+        bits_of 4 (p_par h) ++ bits_of 9 (p_pwi h) ++ [true] ++ bits_of 9 (p_phi h)
+        ++ (if p_par h =? 15 then bits_of 8 (p_eparw h) ++ bits_of 8 (p_eparh h) else [])
+      else [])
+  ++ (if p_pcf h then bits_of 8 (p_cpcfc h) ++ bits_of 2 (p_etr h) else [])
+  ++ (if p_umv h then (if p_uui_extended h then [true] else [false; true]) else [])
+  ++ (if p_ss h then bits_of 2 (p_sss h) else [])
+  ++ (if scal then bits_of 4 (p_elnum h) ++ bits_of 4 (p_rlnum h) else [])
+  ++ (if p_rps h then bits_of 3 (p_rpsmf h)
+                      ++ (match p_trp h with None => [false] | Some t => true :: bits_of 10 t end)
+                      ++ [false; true]                                              (* BCI '01': no back-channel message *)
+      else [])
+  ++ bits_of 5 (p_quant h)
+  ++ (if p_type h =? 2 then bits_of (if p_pcf h then 5 else 3) (p_trb h) ++ bits_of 2 (p_dbquant h) else [])
+  ++ enc_pei (p_extra h).
+
+Definition wf_plus (h : plus_header) : Prop :=
+  0 <= p_tr h < 256 /\ 0 <= p_fmt h < 8 /\ 0 <= p_type h < 8 /\
+  (match p_cpm h with None => True | Some p => 0 <= p < 4 end) /\
+  1 <= p_par h < 16 /\ 0 <= p_pwi h < 512 /\ 0 <= p_phi h < 512 /\ 1 <= p_eparw h < 256 /\ 1 <= p_eparh h < 256 /\
+  0 <= p_cpcfc h < 256 /\ 0 <= p_etr h < 4 /\ 0 <= p_sss h < 4 /\ 0 <= p_elnum h < 16 /\ 0 <= p_rlnum h < 16 /\
+  0 <= p_rpsmf h < 8 /\ (match p_trp h with None => True | Some t => 0 <= t < 1024 end) /\
+  0 <= p_quant h < 32 /\ 0 <= p_trb h < (if p_pcf h then 32 else 8) /\ 0 <= p_dbquant h < 4 /\
+  Forall byte_ok (p_extra h).
+
+Definition plus_par (p w h : Z) : par_t :=
+  if p =? 1 then Square else if p =? 2 then Par12_11 else if p =? 3 then Par10_11 else if p =? 4 then Par16_11
+  else if p =? 5 then Par40_33 else if p =? 15 then ParExtended w h else ParReserved p.
+Definition plus_format (h : plus_header) : option source_format :=
+  let f := p_fmt h in
+  if f =? 6 then Some (Extended (plus_par (p_par h) (p_eparw h) (p_eparh h)) ((p_pwi h + 1) * 4) (p_phi h * 4))
+  else if f =? 1 then Some SubQcif else if f =? 2 then Some QuarterCif else if f =? 3 then Some FullCif
+  else if f =? 4 then Some FourCif else if f =? 5 then Some SixteenCif else Some SfReserved.
+Definition plus_type (t : Z) : ptype_code :=
+  if t =? 0 then IFrame else if t =? 1 then PFrame else if t =? 2 then ImprovedPbFrame else if t =? 3 then BFrame
+  else if t =? 4 then EiFrame else if t =? 5 then EpFrame else PtReserved t.
+
+(* the option set: union (bitwise or) of the PTYPE flags, the OPPTYPE flags and the MPPTYPE flags *)
+Definition plus_options (h : plus_header) : Z :=
+  Z.lor (flag_if (p_split h) USE_SPLIT_SCREEN + flag_if (p_doccam h) USE_DOCUMENT_CAMERA + flag_if (p_freeze h) RELEASE_FULL_PICTURE_FREEZE)
+   (Z.lor (flag_if (p_umv h) UNRESTRICTED_MOTION_VECTORS + flag_if (p_sac h) SYNTAX_BASED_ARITHMETIC_CODING
+           + flag_if (p_ap h) ADVANCED_PREDICTION + flag_if (p_aic h) ADVANCED_INTRA_CODING + flag_if (p_df h) DEBLOCKING_FILTER
+           + flag_if (p_ss h) SLICE_STRUCTURED + flag_if (p_rps h) REFERENCE_PICTURE_SELECTION
+           + flag_if (p_isd h) INDEPENDENT_SEGMENT_DECODING + flag_if (p_aiv h) ALTERNATIVE_INTER_VLC
+           + flag_if (p_mq h) MODIFIED_QUANTIZATION)
+          (flag_if false REFERENCE_PICTURE_RESAMPLING + flag_if (p_rru h) REDUCED_RESOLUTION_UPDATE + flag_if (p_rtype h) ROUNDING_TYPE_ONE)).
+
+Definition picture_of_plus (scal : bool) (h : plus_header) : picture :=
+  mkPicture None
+    (if p_pcf h then p_etr h * 256 + p_tr h else p_tr h)
+    (plus_format h) (plus_options h) true true (plus_type (p_type h))
+    (if p_umv h then Some (if p_uui_extended h then MvExtended else MvUnlimited) else None)
+    (* SSS: first bit rectangular slices (flag 1), second bit arbitrary order (flag 2) *)
+    (if p_ss h then Some (flag_if (Z.testbit (p_sss h) 1) 1 + flag_if (Z.testbit (p_sss h) 0) 2) else None)
+    (if scal then Some (p_elnum h, Some (p_rlnum h)) else None)
+    (if p_rps h then Some (flag_if (negb (Z.testbit (p_rpsmf h) 2)) 1 + flag_if (Z.testbit (p_rpsmf h) 1) 2
+                           + flag_if (Z.testbit (p_rpsmf h) 0) 4) else None)
+    (if p_rps h then p_trp h else None)
+    (p_quant h) (p_cpm h)
+    (if p_type h =? 2 then Some (p_trb h) else None) (if p_type h =? 2 then Some (5 + p_dbquant h) else None)
+    (p_extra h).
